@@ -16,7 +16,11 @@ EXPLANATION = (
     "argument plan of each command (kinds, order, optionality - extracted from parse_arguments) equals the documented "
     "signature. R5: the argument reader and the stdin reader split on the same delimiter set {newline, ';'} and the combined "
     "reader consults the stream only when the argument is absent or exhausted. R6: value arguments accept [-32768, 65535], "
-    "addresses [0, 65535], offsets [-32768, 32767] (shape of the three conversions and which one each argument kind uses)."
+    "addresses [0, 65535], offsets [-32768, 32767] (shape of the three conversions and which one each argument kind uses). "
+    "R7 (TAB, siblings): the pre-classifier of arguments and the integer parser agree on the sign characters accepted after a radix prefix, "
+    "on the radix letters, on the digit function and on the first characters that force an integer (character predicates are evaluated as "
+    "extracted decision structures over a finite character domain). R8 (TAB): the stdin reader's byte classifier, evaluated as a decision "
+    "structure on every byte that occurs in valid UTF-8, equals the UTF-8 lead-byte table, so the two transports deliver the same characters."
 )
 NOT_DECIDED = "the value denoted by every spelling of an integer or label (a grammar-level, value-quantified matter); invalid UTF-8 on stdin (outside the quantifier: strings)"
 
@@ -344,3 +348,166 @@ def run(ctx):
         if not ok:
             ctx.violation("conv-use|%s" % short(fn_name), f.file_line(), "`%s` converts its integer with %s (expected %s)" % (short(fn_name), sorted(cal), want))
     ctx.finish_rule()
+
+    # ------------------------------------------------------------------ R7
+    ctx.rule("C14.R7", "the argument classifier and the integer parser read the same integer alphabet (signs, radix letters, first characters)", floor=4)
+    PI = "lace::debugger::command::parse::integer::"
+    NAIVE = "lace::debugger::command::parse::naive::NaiveType::is_str_integer"
+    RADIX = "debugger::command::parse::integer::Radix"
+    DOMAIN = list(range(0, 0x300)) + [0x20AC, 0xFF10, 0x1F600]
+    nv, tsg, tpf, pdg = ctx.fn(NAIVE), ctx.fn(PI + "take_sign"), ctx.fn(PI + "take_prefix"), ctx.fn(PI + "Radix::parse_digit")
+
+    def char_switches(f):
+        for b in sorted(f.live_blocks()):
+            t = f.term(b)
+            if t["k"] == "switch" and len(t["targets"]) >= 2 and all(isinstance(v, int) and 9 <= v < 0x110000 for v, x in t["targets"]):
+                e = f.expr(t["a"], 6)
+                if e[0] != "discr":
+                    yield b, t
+
+    def first_agg(f, b, adt_suffix, limit=4):
+        """variant of the first aggregate of the given ADT built in b or the straight-line blocks after it"""
+        for _ in range(limit):
+            for s_ in f.stmts(b):
+                if s_["k"] == "assign" and s_["r"]["k"] == "agg" and str(s_["r"].get("adt", "")).endswith(adt_suffix):
+                    return s_["r"].get("variant")
+            t = f.term(b)
+            if t["k"] != "goto":
+                return None
+            b = t["t"]
+        return None
+
+    def pred_set(fname):
+        f = ctx.fn(fname)
+        tree = formula.decision(f)
+        out = set()
+        for c in DOMAIN:
+            lab = formula.eval_decision(tree, {"args": {2: c, "ch": c}})
+            v = formula.evaluate(lab, {"args": {2: c, "ch": c}}) if lab is not None else None
+            if v in (1, True):
+                out.add(c)
+        return out
+
+    def radix_map(f):
+        m = {}
+        for b, t in char_switches(f):
+            for v, x in t["targets"]:
+                r = first_agg(f, x, "integer::Radix")
+                if r:
+                    m[v] = r
+        return m
+
+    def show(cs):
+        return "".join(chr(c) for c in sorted(cs)) if all(32 < c < 127 for c in cs) else sorted(cs)
+
+    # (a) sign alphabet
+    sign_parser = {}
+    for b, t in char_switches(tsg):
+        for v, x in t["targets"]:
+            r = first_agg(tsg, x, "integer::Sign")
+            if r:
+                sign_parser[v] = r
+    ctx.need(sign_parser, "sign characters in take_sign")
+    sign_naive = None
+    for b, t, c in nv.calls():
+        if c and c.endswith("Peekable::<I>::next_if"):
+            cl = [x for x in t["f"].get("closures", []) if not x.startswith("fn:")]
+            ctx.need(len(cl) == 1, "predicate closure of next_if in the classifier")
+            sign_naive = pred_set(cl[0])
+        elif c and c.endswith("Peekable::<I>::next_if_eq"):
+            e = nv.expr(t["args"][1], 6)
+            ks = [x[1] for x in expr_walk(e) if x[0] == "const" and isinstance(x[1], int)]
+            for x in expr_walk(e):
+                if x[0] == "uneval" and len(x) > 2:      # `&'-'` is a promoted constant: read its body
+                    pf = prog.fns.get("%s::promoted[%s]" % (x[1], x[2]))
+                    if pf is not None:
+                        ks += [const_int(s_["r"]["a"]) for b_, i_, s_ in pf.assigns() if s_["r"]["k"] == "use" and const_int(s_["r"]["a"]) is not None]
+            ctx.need(ks, "character compared by next_if_eq in the classifier")
+            sign_naive = set(ks[:1])
+    ctx.instance(1)
+    ok = sign_naive is not None and sign_naive == set(sign_parser)
+    ctx.oblig(ok, {"sign after the radix prefix": {"classifier": show(sign_naive or []), "parser": show(sign_parser)}}, "equal sets")
+    if not ok:
+        ctx.violation("sign-alphabet", nv.file_line(), "after a radix prefix the classifier skips a sign from %s, the integer parser accepts %s: a spelling the parser "
+                      "documents (x+4) is classified as a label and rejected where an integer is required" % (show(sign_naive or []), show(sign_parser)))
+    # (b) radix letters
+    rm_n, rm_p = radix_map(nv), radix_map(tpf)
+    ctx.instance(1)
+    ok = bool(rm_n) and rm_n == rm_p
+    ctx.oblig(ok, {"radix letters": {chr(k): v for k, v in sorted(rm_n.items())}}, "classifier == take_prefix")
+    if not ok:
+        ctx.violation("radix-letters", nv.file_line(), "the classifier maps prefix letters %s, take_prefix maps %s" % ({chr(k): v for k, v in sorted(rm_n.items())}, {chr(k): v for k, v in sorted(rm_p.items())}))
+    # (c) both use the same digit function
+    ctx.instance(1)
+    ok = pdg.name in ctx.cg.callees(NAIVE) and pdg.name in ctx.cg.callees(PI + "parse_integer")
+    ctx.oblig(ok, {"digits": "Radix::parse_digit on both sides"}, "shared callee")
+    if not ok:
+        ctx.violation("digit-function", nv.file_line(), "the classifier and the integer parser do not share Radix::parse_digit")
+    # (d) "certainly an integer" first characters = signs + the other non-letter prefix characters + decimal digits
+    first = None
+    for b, t, c in nv.calls():
+        if c and c.endswith("Option::<T>::is_some_and") and first is None:
+            cl = [x for x in t["f"].get("closures", []) if not x.startswith("fn:")]
+            if cl:
+                first = pred_set(cl[0])
+    vidx = {v["name"]: v.get("discr", v["idx"]) for v in prog.adt("lace::" + RADIX)["variants"]} if prog.adt("lace::" + RADIX) else {}
+    ptree = formula.decision(pdg)
+    dec = set()
+    for c in DOMAIN:
+        env = {"args": {2: c, "ch": c}, "subst": (lambda e: vidx.get("Decimal") if e[0] == "discr" else None)}
+        try:
+            lab = formula.eval_decision(ptree, env)
+        except formula.Unknown:
+            lab = None
+        if formula.label_variant(lab) == "Some":
+            dec.add(c)
+    others = set()
+    for b, t in char_switches(tpf):
+        others |= {v for v, x in t["targets"] if v not in rm_p}
+    want_first = set(sign_parser) | others | dec
+    ctx.instance(1)
+    ok = first is not None and first == want_first and len(dec) == 10
+    ctx.oblig(ok, {"first characters that force 'integer'": show(first or [])}, "signs + '#' + decimal digits")
+    if not ok:
+        ctx.violation("first-alphabet", nv.file_line(), "the classifier treats %s as the start of an integer; the parser's alphabet is %s" % (show(first or []), show(want_first)))
+    ctx.finish_rule()
+
+    # ------------------------------------------------------------------ R8
+    ctx.rule("C14.R8", "the stdin reader's byte classifier is the UTF-8 lead-byte table (every character of a script line is reassembled)", floor=2)
+    U8 = "lace::debugger::command::reader::stdin::Utf8Position"
+    uf, ul = ctx.fn(U8 + "::from"), ctx.fn(U8 + "::len")
+    adt = prog.adt(U8)
+    ctx.need(adt, "enum Utf8Position")
+    names = {v.get("discr", v["idx"]): v["name"] for v in adt["variants"]}
+    ltree = formula.decision(ul)
+    length = {}
+    for idx, nm_ in names.items():
+        lab = formula.eval_decision(ltree, {"subst": (lambda e, idx=idx: idx if e[0] == "discr" else None)})
+        length[nm_] = formula.evaluate(lab[2][0], {}) if formula.label_variant(lab) == "Some" else None
+    ftree = formula.decision(uf)
+    bad = []
+    nbytes = 0
+    for byte in range(256):
+        want = 1 if byte < 0x80 else None if byte < 0xC0 else 2 if byte < 0xE0 else 3 if byte < 0xF0 else 4
+        if byte in (0xC0, 0xC1) or byte > 0xF4:
+            continue      # never occur in valid UTF-8: outside the property's quantifier (strings)
+        nbytes += 1
+        lab = formula.eval_decision(ftree, {"args": {1: byte, "byte": byte}})
+        got = length.get(formula.label_variant(lab), "?")
+        if got != want:
+            bad.append((byte, formula.label_variant(lab), got, want))
+    ctx.instance(nbytes)
+    ctx.oblig(not bad, {"bytes classified": nbytes, "lengths": length}, "0xxxxxxx=1, 10xxxxxx=continuation, 110xxxxx=2, 1110xxxx=3, 11110xxx=4")
+    if bad:
+        b0 = bad[0]
+        ctx.violation("utf8-table", uf.file_line(), "byte 0x%02X is classified %s (sequence length %s), UTF-8 says %s; %d byte value(s) differ: a script line containing such a "
+                      "character panics or is mangled on stdin but not through --command" % (b0[0], b0[1], b0[2], b0[3] if b0[3] else "continuation", len(bad)))
+    # the reassembled bytes are decoded by the standard decoder, and a continuation test guards every following byte
+    rc = ctx.fn("lace::debugger::command::reader::stdin::read_char_from_bytes")
+    ok = any(c and c.endswith("str::converts::from_utf8") for b, t, c in rc.calls()) and any(c == U8 + "::is_continuation" for b, t, c in rc.calls())
+    ctx.instance(1)
+    ctx.oblig(ok, {"decoder": "core::str::from_utf8 + is_continuation per following byte"}, "callees")
+    if not ok:
+        ctx.violation("utf8-decoder", rc.file_line(), "read_char_from_bytes no longer decodes with str::from_utf8 / checks continuation bytes")
+    ctx.finish_rule()
+
